@@ -8,11 +8,22 @@ Everything here works from *outside* the code under test:
   the calls per site and tells the wrapper what to do at the k-th one (raise / write half then
   raise / die / write half then die).
 * ``patched(plan, ...)`` - puts counting wrappers on the attributes the save resolves at call
-  time: ``tempfile.mkdtemp``, ``shutil.copymode``, ``os.replace``, ``os.remove``, ``os.rmdir``,
-  ``os.copy_file_range`` (module attributes of ``os``/``shutil``/``tempfile``; only calls whose
-  caller is ``onnx_ir`` code are counted or failed) and ``open`` as seen from
-  ``onnx_ir.external_data`` (destination side, returns a wrapping file object) and from
-  ``onnx_ir._core`` (source side of ``ExternalTensor``).
+  time.  Fault sites are the *effects the property names*, whichever stdlib function implements
+  them (``EFFECTS``): temp creation (``tempfile.mkdtemp`` / ``mkstemp``), mode copy
+  (``shutil.copymode`` / ``copystat``, ``os.chmod`` / ``fchmod`` / ``lchmod``), rename (``os.replace`` /
+  ``rename`` / ``renames``, ``shutil.move``), cleanup (``os.remove`` / ``unlink``; ``os.rmdir``) - plus
+  ``os.copy_file_range``.  A call is one effect of the save when it is made by ``onnx_ir`` code
+  directly or through ``shutil`` / ``tempfile`` / ``pathlib`` on its behalf, and it is the outermost
+  wrapped call of its thread (``shutil.copymode`` calling ``os.chmod`` is ONE mode copy; the
+  ``os.unlink`` / ``os.rmdir`` calls inside a ``shutil.rmtree`` of the library are cleanup effects).
+  ``open`` as seen from ``onnx_ir.external_data`` (destination side, returns a wrapping file object) and
+  from ``onnx_ir._core`` (source side of ``ExternalTensor``).
+* descriptor exhaustion - action ``exhaust`` at any counted call (or at a LINE event): from that
+  point until the save ends the process cannot obtain another file descriptor.  Enforced by the
+  kernel (``RLIMIT_NOFILE`` soft limit 0), so EVERY descriptor-consuming call fails with EMFILE
+  whatever Python function makes it (``open``, ``os.open``, ``os.scandir`` / ``listdir``, ``mmap``,
+  ``shutil.rmtree`` ...) while path-based calls (``mkdir``, ``rename``, ``unlink``, ``rmdir``, ``chmod``)
+  keep working - cleanup code that itself needs a descriptor is thereby exercised.
 * ``DataFile`` / ``DataFileFd`` - the wrapping file object for the data file being produced.
   ``DataFileFd`` exposes ``fileno`` (numpy ``tofile`` and ``copy_file_range`` go to the
   descriptor directly); ``DataFile`` hides it so that every byte passes through ``write``.
@@ -35,6 +46,7 @@ import errno as _errno
 import io
 import itertools
 import os
+import resource
 import shutil
 import sys
 import tempfile
@@ -46,17 +58,32 @@ from typing import Any
 EXIT_DIED = 77  # exit status of a child that reached its death position
 
 _REAL = {
-    "mkdtemp": tempfile.mkdtemp,
-    "copymode": shutil.copymode,
-    "replace": os.replace,
-    "remove": os.remove,
-    "rmdir": os.rmdir,
     "copy_file_range": getattr(os, "copy_file_range", None),
     "open": builtins.open,
 }
 
+# effect class (= fault site) -> the (module, attribute) pairs that implement it.  The site ids are
+# historical (``copymode`` = mode copy, ``replace`` = rename, ``mkdtemp`` = temp creation).
+EFFECTS: dict[str, list[tuple[Any, str]]] = {
+    "mkdtemp": [(tempfile, "mkdtemp"), (tempfile, "mkstemp")],
+    "copymode": [(shutil, "copymode"), (shutil, "copystat"), (os, "chmod"), (os, "fchmod"), (os, "lchmod")],
+    "replace": [(os, "replace"), (os, "rename"), (os, "renames"), (shutil, "move")],
+    "remove": [(os, "remove"), (os, "unlink")],
+    "rmdir": [(os, "rmdir")],
+}
+_REAL_EFFECTS = {
+    (mod.__name__, attr): getattr(mod, attr)
+    for pairs in EFFECTS.values() for mod, attr in pairs if hasattr(mod, attr)
+}
+
 # sites whose failure is a failure of *cleanup* (judged on destination bytes only)
 CLEANUP_SITES = ("remove", "rmdir")
+
+# stdlib modules that make file-system calls on behalf of their caller
+_ON_BEHALF = frozenset({"shutil", "tempfile", "pathlib", "contextlib", "os", "posixpath", "genericpath"})
+
+_TLS = threading.local()
+_NOFILE = resource.getrlimit(resource.RLIMIT_NOFILE)
 
 
 class InjectedOSError(OSError):
@@ -105,6 +132,8 @@ class Plan:
         # file being produced fails with (a full disk stays full)
         self.device_failed: list | None = None
         self.raw_refused = 0                       # write(2) calls refused after the device failed
+        self.exhausted = False                     # descriptor exhaustion in force (until ``restore``)
+        self.reached: Counter[str] = Counter()     # "<site> via <module.function>": which call implemented the effect
 
     def hit(self, site: str) -> list | None:
         with self.lock:
@@ -117,7 +146,32 @@ class Plan:
                 self.counts_at_fire.append(dict(self.counts))
                 if self.on_fire is not None:
                     self.on_fire()
+                if action[0] == "exhaust":
+                    # not a failure of THIS call by decree: the call goes on and fails (or not) for real
+                    self._exhaust()
+                    return None
             return action
+
+    # -- descriptor exhaustion -------------------------------------------------------------------
+    def line_exhaust(self) -> int | None:
+        """LINE-event index at which descriptors run out (fault ``["line", n, ["exhaust", None]]``)."""
+        return next((k for (site, k), a in self.faults.items() if site == "line" and a[0] == "exhaust"), None)
+
+    def exhaust_at_line(self) -> None:
+        with self.lock:
+            self.fired.append(("line", self.line_exhaust() or 0, "exhaust", self.replaced == 0))
+            self.counts_at_fire.append(dict(self.counts))
+            self._exhaust()
+
+    def _exhaust(self) -> None:
+        if not self.exhausted:
+            self.exhausted = True
+            resource.setrlimit(resource.RLIMIT_NOFILE, (0, _NOFILE[1]))
+
+    def restore(self) -> None:
+        if self.exhausted:
+            self.exhausted = False
+            resource.setrlimit(resource.RLIMIT_NOFILE, _NOFILE)
 
     def note_replaced(self) -> None:
         with self.lock:
@@ -337,6 +391,24 @@ def _caller_is_onnx_ir(depth: int = 2) -> bool:
     return name == "onnx_ir" or name.startswith("onnx_ir.")
 
 
+def _on_behalf_of_onnx_ir(depth: int = 2) -> bool:
+    """The call is made by onnx_ir code, directly or through shutil / tempfile / pathlib frames."""
+    try:
+        frame = sys._getframe(depth)
+    except ValueError:
+        return False
+    for _ in range(16):
+        if frame is None:
+            return False
+        name = frame.f_globals.get("__name__", "")
+        if name == "onnx_ir" or name.startswith("onnx_ir."):
+            return True
+        if name.split(".")[0] not in _ON_BEHALF:
+            return False
+        frame = frame.f_back
+    return False
+
+
 def _is_data_write_mode(mode: str) -> bool:
     return "b" in mode and ("w" in mode or "+" in mode or "a" in mode or "x" in mode)
 
@@ -346,37 +418,28 @@ def patched(plan: Plan, *, opaque: bool, external_data_module, core_module):
     """Install the counting wrappers for the duration of one save."""
     real = _REAL
 
-    def mkdtemp(*a, **kw):
-        if not _caller_is_onnx_ir():
-            return real["mkdtemp"](*a, **kw)
-        _apply_simple(plan.hit("mkdtemp"))
-        return real["mkdtemp"](*a, **kw)
+    def effect(site: str, label: str, realfn):
+        """One file-system effect of the save, whichever function implements it: counted / failed when
+        made by (or on behalf of) onnx_ir code and not nested inside another counted effect."""
 
-    def copymode(*a, **kw):
-        if not _caller_is_onnx_ir():
-            return real["copymode"](*a, **kw)
-        _apply_simple(plan.hit("copymode"))
-        return real["copymode"](*a, **kw)
+        def wrapper(*a, **kw):
+            if getattr(_TLS, "depth", 0) or not _on_behalf_of_onnx_ir():
+                return realfn(*a, **kw)
+            _TLS.depth = 1
+            try:
+                with plan.lock:
+                    plan.reached[f"{site} via {label}"] += 1
+                _apply_simple(plan.hit(site))
+                result = realfn(*a, **kw)
+            finally:
+                _TLS.depth = 0
+            if site == "replace":
+                plan.note_replaced()
+            return result
 
-    def replace(*a, **kw):
-        if not _caller_is_onnx_ir():
-            return real["replace"](*a, **kw)
-        _apply_simple(plan.hit("replace"))
-        result = real["replace"](*a, **kw)
-        plan.note_replaced()
-        return result
-
-    def remove(*a, **kw):
-        if not _caller_is_onnx_ir():
-            return real["remove"](*a, **kw)
-        _apply_simple(plan.hit("remove"))
-        return real["remove"](*a, **kw)
-
-    def rmdir(*a, **kw):
-        if not _caller_is_onnx_ir():
-            return real["rmdir"](*a, **kw)
-        _apply_simple(plan.hit("rmdir"))
-        return real["rmdir"](*a, **kw)
+        wrapper.__name__ = getattr(realfn, "__name__", label)
+        wrapper.__wrapped__ = realfn
+        return wrapper
 
     pending_cfr: list = []
 
@@ -425,17 +488,18 @@ def patched(plan: Plan, *, opaque: bool, external_data_module, core_module):
         setattr(obj, name, value)
 
     try:
-        put(tempfile, "mkdtemp", mkdtemp)
-        put(shutil, "copymode", copymode)
-        put(os, "replace", replace)
-        put(os, "remove", remove)
-        put(os, "rmdir", rmdir)
+        for site, pairs in EFFECTS.items():
+            for mod, attr in pairs:
+                realfn = _REAL_EFFECTS.get((mod.__name__, attr))
+                if realfn is not None:
+                    put(mod, attr, effect(site, f"{mod.__name__}.{attr}", realfn))
         if real["copy_file_range"] is not None:
             put(os, "copy_file_range", copy_file_range)
         put(external_data_module, "open", ext_open)
         put(core_module, "open", core_open)
         yield
     finally:
+        plan.restore()      # descriptors are available again before the harness looks at anything
         for obj, name, old, had in reversed(saved):
             if had:
                 setattr(obj, name, old)
@@ -478,7 +542,8 @@ def _code_objects_of(module) -> list[types.CodeType]:
 
 
 class LineMonitor:
-    """LINE events of the chosen modules.  mode: off | count | record | kill."""
+    """LINE events of the chosen modules.  mode: off | count | record | kill | call (``action()`` at
+    the target event, once)."""
 
     def __init__(self, modules, tool_id: int | None = None) -> None:
         self.codes = [c for m in modules for c in _code_objects_of(m)]
@@ -501,6 +566,7 @@ class LineMonitor:
         self.target = -1
         self.trace: list[tuple[str, str, int]] = []
         self.seen = 0
+        self.action = None
 
     def _on_line(self, code, lineno):
         mode = self.mode
@@ -512,12 +578,16 @@ class LineMonitor:
                 os._exit(EXIT_DIED)
         elif mode == "record":
             self.trace.append((os.path.basename(code.co_filename), code.co_name, lineno))
+        elif mode == "call":
+            if n == self.target and self.action is not None:
+                self.action()
         return None
 
-    def start(self, mode: str, target: int = -1) -> None:
+    def start(self, mode: str, target: int = -1, action=None) -> None:
         self.counter = itertools.count()
         self.target = target
         self.trace = []
+        self.action = action
         self.mode = mode
 
     def stop(self) -> int:
